@@ -57,7 +57,11 @@ def string_filter(_filter: FilterT) -> FilterT:
         if val is None:
             val = ""
         elif not isinstance(val, str):
-            val = str(val)
+            try:
+                val = str(val)
+            except ValueError as err:
+                # An integer with more digits than the int/str conversion limit.
+                raise FilterArgumentError(err, token=None) from err
 
         try:
             return _filter(val, *args, **kwargs)
